@@ -149,6 +149,120 @@ Proof.
 Qed.
 End Hop.
 
+(* a delivered request for a function that stays inside application code: two steps bring its handler there *)
+Lemma start_gated calls s n arg :
+  crashed s = false -> tget (threads s) (TReq n) = Some (QStart FGated arg) -> no_callee_faults s ->
+  exists s', lrun fixed calls s [(Run (TReq n), 0); (Run (THandler n), 0)] = Some s' /\
+             tget (threads s') (THandler n) = Some (HGate arg) /\ crashed s' = false /\
+             cancelled s' = cancelled s /\ no_callee_faults s' /\ bclosed s' = bclosed s.
+Proof.
+  intros Hc Ht (F1 & F2 & F3).
+  assert (S1 : lstep fixed calls s (Run (TReq n)) 0 =
+               Some (setT (setT (with_flt s (mkFaults (f_wreq (flt s)) (f_wres (flt s)) (f_marshal (flt s)) None)) (TReq n) Finished)
+                          (THandler n) (HStart FGated arg))).
+  { unfold lstep. rewrite Hc, Ht. simpl. unfold take_fault. rewrite F3. reflexivity. }
+  set (s1 := setT (setT (with_flt s (mkFaults (f_wreq (flt s)) (f_wres (flt s)) (f_marshal (flt s)) None)) (TReq n) Finished)
+                  (THandler n) (HStart FGated arg)) in *.
+  assert (T1 : tget (threads s1) (THandler n) = Some (HStart FGated arg)) by (unfold s1, setT; simpl; apply tget_tset_same).
+  assert (C1 : crashed s1 = false) by exact Hc.
+  eexists. simpl. rewrite S1. unfold lstep at 1. rewrite C1, T1. simpl. split; [reflexivity|].
+  unfold setT; simpl. split; [apply tget_tset_same|]. split; [exact Hc|]. split; [reflexivity|].
+  split; [unfold no_callee_faults; simpl; auto|reflexivity].
+Qed.
+
+(* a handler that was inside application code (gated) and resumes answers its request in one step *)
+Lemma resume_handler calls s n arg :
+  crashed s = false -> tget (threads s) (THandler n) = Some (HGate arg) ->
+  memN 0%N (cancelled s) = false -> no_callee_faults s ->
+  exists s', lstep fixed calls s (Run (THandler n)) 0 = Some s' /\ evs s' = EvResWritten n arg None :: evs s.
+Proof.
+  intros Hc Ht Hc0 (F1 & F2 & F3). unfold lstep. rewrite Hc, Ht. simpl.
+  unfold handler_respond, take_fault. rewrite F2. simpl. rewrite Hc0. rewrite F1. eexists. split; reflexivity.
+Qed.
+
+Section Unwind.
+Variable fn : nat -> fnkind.
+Variables callsA callsB : list callspec.
+Notation prun := (prun fn callsA callsB).
+
+(* the way down a call chain: the request of call i reaches B and its handler enters application code
+   (where it may, for instance, call the peer back); three steps, none of them of A *)
+Lemma descend_lemma l0 p i arg :
+  prun pinit l0 = Some p ->
+  req_written (evs (pa p)) i = Some arg -> fn i = FGated ->
+  tget (threads (pb p)) TReqLoop = Some QLReading -> memN 0%N (cancelled (pb p)) = false -> no_callee_faults (pb p) ->
+  exists p',
+    prun p [NReq i; PB (Run (TReq (nreq (pb p)))) 0; PB (Run (THandler (nreq (pb p)))) 0] = Some p' /\
+    pa p' = pa p /\ nth_error (dreq p') (nreq (pb p)) = Some i /\
+    tget (threads (pb p')) (THandler (nreq (pb p))) = Some (HGate arg) /\
+    memN 0%N (cancelled (pb p')) = false /\ no_callee_faults (pb p') /\ bclosed (pb p') = bclosed (pb p).
+Proof.
+  intros Hp Hrw Hf HrlB Hc0B HfB.
+  destruct (PInv_run fn callsA callsB _ _ _ _ _ (PInv_init fn callsA callsB) Hp) as (D & Q & [hR hQ hl hQd hD (csa & hra) (csb & hrb)]).
+  assert (HcB : crashed (pb p) = false) by (eapply lno_crash_lemma; exists csb; eauto).
+  assert (Hlen : length (dreq p) = nreq (pb p)) by (rewrite hl; apply (q_len _ _ hQ)).
+  destruct p as [a b dq]; simpl in *.
+  destruct (deliver_request callsB b (fn i) arg HcB HrlB Hc0B HfB) as (b1 & St1 & C1 & T1 & N1 & K1 & F1 & E1 & _).
+  rewrite Hf in T1.
+  destruct (start_gated callsB b1 (nreq b) arg C1 T1 F1) as (b2 & R2 & T2 & C2 & K2 & F2 & B2).
+  simpl in R2. destruct (lstep fixed callsB b1 (Run (TReq (nreq b))) 0) as [b1'|] eqn:Sa; [|discriminate].
+  destruct (lstep fixed callsB b1' (Run (THandler (nreq b))) 0) as [b1''|] eqn:Sb; [|discriminate].
+  inversion R2; subst b1''.
+  exists (mkP a b2 (dq ++ [i])).
+  cbn [Pair.prun Pair.pstep app pa pb dreq is_req_delivery]. rewrite Hrw, St1, N1, Nat.eqb_refl.
+  cbn [Pair.prun Pair.pstep app pa pb dreq is_req_delivery]. rewrite Sa.
+  cbn [Pair.prun Pair.pstep app pa pb dreq is_req_delivery]. rewrite Sb.
+  split; [reflexivity|]. split; [reflexivity|].
+  split; [rewrite nth_error_app2 by lia; rewrite Hlen, Nat.sub_diag; reflexivity|].
+  split; [exact T2|]. split; [rewrite K2, K1; exact Hc0B|]. split; [exact F2|].
+  rewrite B2. unfold lstep in St1. rewrite HcB in St1. simpl in St1. rewrite HrlB in St1.
+  unfold take_fault in St1. destruct HfB as (_ & _ & F3). rewrite F3 in St1. simpl in St1.
+  unfold loop_again in St1. simpl in St1. rewrite Hc0B in St1. inversion St1; subst b1. reflexivity.
+Qed.
+
+Definition unwind_action (p : pst) (i n : nat) (a : pact) : Prop :=
+  a = PB (Run (THandler n)) 0 \/ a = NRes n \/
+  (exists b, a = PA (Run (TPub (npub (pa p)))) b) \/ (exists b, a = PA (Run (TWaiter i)) b) \/ (exists b, a = PA (Run (TCall i)) b).
+
+(* the way back up a call chain: the handler B runs for call i of A was stalled inside application code
+   (for instance waiting for a call of its own to the peer); once it resumes, call i is completed by at
+   most seven steps of that handler, of the network for its response frame, and of call i's own
+   goroutines - whatever every other goroutine of either endpoint is doing *)
+Lemma unwind_completes_lemma l0 p i ent n arg :
+  prun pinit l0 = Some p ->
+  bclosed (pa p) = false -> tget (threads (pa p)) TResLoop = Some RLReading ->
+  memN 0%N (cancelled (pa p)) = false -> f_unmarshal (flt (pa p)) = None ->
+  tget (threads (pa p)) (TCall i) = Some CBlocked -> tget (threads (pa p)) (TWaiter i) = Some (WBlocked ent) ->
+  nth_error (dreq p) n = Some i -> tget (threads (pb p)) (THandler n) = Some (HGate arg) ->
+  memN 0%N (cancelled (pb p)) = false -> no_callee_faults (pb p) ->
+  exists l p' v er,
+    length l <= 7 /\ Forall (unwind_action p i n) l /\ prun p l = Some p' /\
+    tget (threads (pa p')) (TCall i) = Some (CReturned v er).
+Proof.
+  intros Hp Hb Hrl Hc0 Hfu Hcall Hwt Hn Hh Hc0B HfB.
+  destruct (PInv_run fn callsA callsB _ _ _ _ _ (PInv_init fn callsA callsB) Hp) as (D & Q & [hR hQ hl hQd hD (csa & hra) (csb & hrb)]).
+  assert (HcB : crashed (pb p) = false) by (eapply lno_crash_lemma; exists csb; eauto).
+  destruct p as [a b dq]; simpl in *.
+  destruct (resume_handler callsB b n arg HcB Hh Hc0B HfB) as (b2 & St & E2).
+  assert (Hw2 : res_written (evs b2) n = Some (arg, None)) by (rewrite E2; simpl; rewrite Nat.eqb_refl; reflexivity).
+  destruct (response_completes_call_lemma callsA a i ent arg None (ex_intro _ csa hra) Hb Hrl Hc0 Hfu Hcall Hwt)
+    as (cs & a' & v & er & Hlcs & Hown & Hrun & Hret & Hgen).
+  exists ([PB (Run (THandler n)) 0] ++ map (liftA n) cs), (mkP a' b2 dq), v, er.
+  split; [rewrite app_length, map_length; simpl; lia|].
+  split.
+  - apply Forall_app. split.
+    + apply Forall_cons; [unfold unwind_action; auto|apply Forall_nil].
+    + apply Forall_forall. intros act Ha. apply in_map_iff in Ha as ([c bnd] & <- & Hin).
+      rewrite Forall_forall in Hown. specialize (Hown _ Hin). simpl in Hown. unfold liftA, unwind_action; simpl.
+      destruct Hown as [ -> | [ -> | [ -> | -> ] ] ]; simpl; eauto 10.
+  - split; [|exact Hret].
+    cbn [Pair.prun Pair.pstep app pa pb dreq is_req_delivery]. rewrite St.
+    apply (lift_A_run fn callsA callsB n i arg None b2 dq cs a a' Hw2 Hn); auto.
+    apply Forall_forall. intros c Hin. rewrite Forall_forall in Hown. specialize (Hown _ Hin).
+    destruct Hown as [H|[H|[H|H]]]; [left; exact H|right; rewrite H; reflexivity..].
+Qed.
+End Unwind.
+
 (* non-vacuity: call 1 of A waits for its response while the handler B runs for call 0 is stalled and
    a handler of A itself (serving a request of the peer) is stalled too *)
 Definition hx_calls : list callspec := [mkCall 1 2 false 10; mkCall 2 2 false 11].
